@@ -608,6 +608,7 @@ WITNESSES = [
     "HISTFILE=/dev/null; history -c; history -s a; history 99999", "echo 4294967296>/dev/null", "echo hi 99999999999>&2",
     "PS1='\\D{%Q}'; echo \"${PS1@P}\"", "HISTFILE=/dev/null; history -c; HISTTIMEFORMAT='%Q '; history -s a; history",
     "case x in x) " * 24 + "case x x) " + "echo x " + ";; esac " * 25,
+    "echo " + "{a," * 30 + "b" + "}" * 12,
 ]
 WITNESSES_PROC = ["(( 08 )) &\nwait\nwait", "echo ${x:?} &\nwait\nwait; echo $?", "cat <<'' "]
 
